@@ -390,7 +390,65 @@ fn boxed_ops(op: &str, a: &[&str]) -> Option<String> {
     })
 }
 
+// ---------------------------------------------------------------- hooks (crate-internal limb-slice routines)
+//   c03.hook.adc_mul_limbs n m x y acc     `out = acc` (n + m limbs); prints `<n+m>:<out> <carry>`
+//   c03.hook.kara_mul n m x y dirty        `karatsuba_mul_limbs` with `out`, `scratch` of n + m limbs each (as
+//                                          `BoxedUint::mul` sizes them); dirty = 1 pre-fills both with a5a5…
+//   c03.hook.kara_square n x dirty         `karatsuba_square_limbs`, `out`, `scratch` of 2n limbs each
+
+fn hook_limbs(s: &str, n: usize) -> Option<Vec<Limb>> {
+    Some(hex_words(s, n)?.into_iter().map(Limb).collect())
+}
+fn hook_hexlen(l: &[Limb]) -> String {
+    format!("{}:{}", l.len(), words_hex(&l.iter().map(|x| x.0).collect::<Vec<_>>()))
+}
+
+fn hook_ops(op: &str, a: &[&str]) -> Option<String> {
+    use crypto_bigint::verif_hooks as h;
+    const MAXL: usize = 600;
+    Some(match (op, a) {
+        ("c03.hook.adc_mul_limbs", [n, m, x, y, acc]) => {
+            let (n, m) = (arg!(dec(n)), arg!(dec(m)));
+            if n + m > MAXL {
+                return Some("unsupported-width".into());
+            }
+            let (x, y) = (arg!(hook_limbs(x, n)), arg!(hook_limbs(y, m)));
+            let mut out = arg!(hook_limbs(acc, n + m));
+            let carry = h::adc_mul_limbs(&x, &y, &mut out);
+            format!("{} {}", hook_hexlen(&out), lhex(carry))
+        }
+        ("c03.hook.kara_mul", [n, m, x, y, dirty]) => {
+            let (n, m) = (arg!(dec(n)), arg!(dec(m)));
+            if n + m > MAXL {
+                return Some("unsupported-width".into());
+            }
+            let (x, y) = (arg!(hook_limbs(x, n)), arg!(hook_limbs(y, m)));
+            let fill = if arg!(dec(dirty)) == 1 { Limb(0xa5a5_a5a5_a5a5_a5a5) } else { Limb::ZERO };
+            let mut out = vec![fill; n + m];
+            let mut scratch = vec![fill; n + m];
+            h::karatsuba_mul_limbs(&x, &y, &mut out, &mut scratch);
+            hook_hexlen(&out)
+        }
+        ("c03.hook.kara_square", [n, x, dirty]) => {
+            let n = arg!(dec(n));
+            if 2 * n > MAXL {
+                return Some("unsupported-width".into());
+            }
+            let x = arg!(hook_limbs(x, n));
+            let fill = if arg!(dec(dirty)) == 1 { Limb(0xa5a5_a5a5_a5a5_a5a5) } else { Limb::ZERO };
+            let mut out = vec![fill; 2 * n];
+            let mut scratch = vec![fill; 2 * n];
+            h::karatsuba_square_limbs(&x, &mut out, &mut scratch);
+            hook_hexlen(&out)
+        }
+        _ => return None,
+    })
+}
+
 pub fn dispatch(op: &str, a: &[&str]) -> Option<String> {
+    if op.starts_with("c03.hook.") {
+        return hook_ops(op, a);
+    }
     if op.starts_with("c03.l.") {
         return limb_ops(op, a);
     }
